@@ -42,6 +42,15 @@ let () =
       let o = D_0tree.parse_opts (List.hd a) in
       let (t, _) = D_0tree.parse_tree (List.tl a) in
       pr_res hex_of_bytes (M.xml o t));
+  (* render xml <opts> <tree tokens>: same line as the harness op, so that ./check replay can run one
+     case on both sides; other formats are left to whoever registered them before *)
+  let prev = Hashtbl.find_opt registry "render" in
+  register "render" (fun a ->
+      match a with
+      | "xml" :: o :: toks ->
+        let (t, _) = D_0tree.parse_tree toks in
+        pr_res hex_of_bytes (M.xml (D_0tree.parse_opts o) t)
+      | _ -> (match prev with Some f -> f a | None -> "err unknown-fn"));
   register "xml_escape" (fun a -> pr_res hex_of_bytes (M.xml_escape (arg a 0)));
   register "xml_read" (fun a -> match M.xml_read (arg a 0) with Some x -> "ok " ^ str_xtree x | None -> "none");
   register "tree_to_xtree" (fun a ->
